@@ -132,6 +132,15 @@ func (x *Exec) calleeKey(c *ssa.CallCommon) string {
 }
 
 func matchCallee(key, pat string) bool {
+	if matchCallee1(key, pat) {
+		return true
+	}
+	// receiver syntax is optional in patterns: "SSTableStreamWriter.Close" matches "(*SSTableStreamWriter).Close"
+	plain := strings.NewReplacer("(*", "", "(", "", ")", "").Replace(key)
+	return plain != key && matchCallee1(plain, pat)
+}
+
+func matchCallee1(key, pat string) bool {
 	return key == pat || strings.HasSuffix(key, "."+pat) || strings.HasSuffix(key, "/"+pat) || strings.HasSuffix(key, pat) && strings.Contains(pat, ".")
 }
 
@@ -206,7 +215,7 @@ func (x *Exec) callAsserts(fr *frame, st *State, instr ssa.CallInstruction, c *s
 			extra[fmt.Sprintf("c%d", k)] = r
 		}
 		as := args
-		if c.IsInvoke() && len(as) > 0 {
+		if (c.IsInvoke() || c.Signature().Recv() != nil) && len(as) > 0 {
 			extra["recv"] = as[0]
 			as = as[1:]
 		}
